@@ -54,7 +54,9 @@ Base == [camel |-> FALSE, query |-> "Query", mutation |-> "", subscription |-> "
     \* a user type whose name starts with a single underscore (only names starting with two are reserved)
     \* its description is the marker IDEO2: two lines that both start with U+3000 (expanded by the harness)
     [k |-> "object", name |-> "_Meta", ifaces |-> <<>>, desc |-> "IDEO2", dres |-> "", rt |-> "",
-       fields |-> << Fld(<<"meta", "info">>, Named("String"), <<>>, "meta_info", "", ""), Fld(<<"top", "level">>, Named("Level"), <<>>, "top_level", "r_top", "") >>],
+       fields |-> << Fld(<<"meta", "info">>, Named("String"), <<>>, "meta_info", "", ""), Fld(<<"top", "level">>, Named("Level"), <<>>, "top_level", "r_top", ""),
+                     \* the shortest legal name: a single underscore (one word in every spelling)
+                     Fld(<<"_">>, Named("Int"), <<>>, "_", "", "") >>],
     [k |-> "interface", name |-> "Node", ifaces |-> <<>>, desc |-> "", dres |-> "", rt |-> "rt_node",
        fields |-> << Fld(<<"node", "id">>, Named("ID"), <<>>, "node_id", "", "") >>],
     [k |-> "object", name |-> "Item", ifaces |-> <<"Node">>, desc |-> "an item", dres |-> "dr_item", rt |-> "",
